@@ -145,13 +145,13 @@ def transcripts(chk, rng, broken):
     exes = [("plain", exe)]
     if chk.tier != "quick":
         exes.append(("asan", C.build_harness("c07_run", "asan")))
-    nseeds = 5 if chk.tier == "quick" else 12
+    nseeds = 5 if chk.tier == "quick" else 30
     jobs = []
     for cfg in CONFIGS:
         for _ in range(nseeds):
             seed = rng.below(1 << 31) if rng.below(4) else rng.choice([0, 1])
-            gens = rng.between(3, 8) if chk.tier == "quick" else rng.between(4, 16)
-            inds = rng.between(10, 30) if chk.tier == "quick" else rng.between(10, 60)
+            gens = rng.between(3, 8) if chk.tier == "quick" else rng.between(4, 25)
+            inds = rng.between(10, 30) if chk.tier == "quick" else rng.between(10, 80)
             jobs.append((cfg, seed, gens, inds))
 
     def variants(cfg):
